@@ -16,9 +16,11 @@
 //!    existed, a fault, a panic, an inconsistent reader) fails.  After a clean sync/finish the
 //!    reopened state must equal the shadow exactly.
 //!
-//! M+S cells (image evaluated by the Coq model too): MmapVec<u8|u16|u32|u64> open/read, ZReorderMap
-//! open/iterate and builder output.  S-only cells: PlainBlobStore, ZipOffsetBlobStore,
-//! SuffixArrayDictionary, MemoryMappedOutput->MemoryMappedInput.
+//! M+S cells (evaluated by the Coq model too, see coq/C19/ModelCases.v): MmapVec<u8|u16|u32|u64> open/read and the
+//! state (len, capacity, file length) after every operation; ZReorderMap open/iterate, builder output and its write
+//! sequence; ZipOffsetBlobStore image, save operations and loader (final, cut and bit-flipped images);
+//! PlainBlobStore whole-history file operations; MemoryMappedOutput position/capacity/file.
+//! S-only cell: SuffixArrayDictionary (bincode image; only its write protocol is compared).
 use crate::util::*;
 use serde_json::{json, Value};
 use std::collections::{BTreeMap, HashMap};
@@ -460,6 +462,14 @@ fn read_state(req: &Value) -> Value {
                 json!({"ok": {"records": recs}})
             }
         },
+        "zipoffset_full" => match ZipOffsetBlobStore::load_from_file(path) {
+            Err(e) => json!({"err": e.to_string()}),
+            Ok(st) => {
+                let n = st.len();
+                let gets: Vec<Value> = (0..n.min(READ_LIMIT)).map(|id| match st.get(id as u32) { Ok(d) => json!(hex(&d)), Err(_) => Value::Null }).collect();
+                json!({"ok": {"len": n, "gets": gets, "compress": st.config().compress_level}})
+            }
+        },
         "dict" => match SuffixArrayDictionary::load_from_file(path) {
             Err(e) => json!({"err": e.to_string()}),
             Ok(d) => json!({"ok": {"text": hex(d.data()), "min": d.config().min_pattern_length, "max": d.config().max_pattern_length}}),
@@ -559,20 +569,23 @@ impl Drop for Server { fn drop(&mut self) { let _ = self.child.kill(); let _ = s
 // the check proper
 // =====================================================================================
 const HEADER: &str = r#"From ZV.Common Require Import Base Run.
-From ZV.C19 Require Import Model.
+From ZV.C19 Require Import Model ModelZo ModelPlainDir ModelMvOps ModelRoW ModelMvHist ModelCases.
 Open Scope N_scope.
-Definition case_t : Type := Model.case.
-Definition ok (c : case_t) : bool := Model.case_ok c.
+Definition case_t : Type := ModelCases.xcase.
+Definition ok (c : case_t) : bool := ModelCases.xcase_ok c.
 "#;
 
 struct Ctx {
     sum: Summary, shards: CoqShards, budget: usize, srv: Server, root: String, seq: u64, thorough: bool,
     cache: HashMap<u64, Value>, images: u64, coq_seen: std::collections::HashSet<u64>, proto: usize, n_mv: usize, n_ro: usize,
+    n_zo: usize, n_zosave: usize, n_row: usize, n_row_big: usize, n_plain: usize, n_mvops: usize, n_mmio: usize, n_units: usize,
 }
 fn dbg_case(cj: &Value) { if std::env::var("ZV_C19_DEBUG").is_ok() { let s = cj.to_string(); eprintln!("[{:?}] case {}", std::time::SystemTime::now().duration_since(std::time::UNIX_EPOCH).map(|d| d.as_millis() % 1000000).unwrap_or(0), &s[..s.len().min(400)]); } }
 fn fnv64(b: &[u8], mut h: u64) -> u64 { for x in b { h ^= *x as u64; h = h.wrapping_mul(0x100000001b3); } h }
 
 impl Ctx {
+    /// Coq cases of the first generation (images, encodings, single-write protocol): they keep their own budget
+    fn old_used(&self) -> usize { self.shards.len() - (self.n_zo + 2 * self.n_zosave + self.n_row + self.n_plain + self.n_mvops + self.n_mmio + self.n_units) }
     fn fresh_dir(&mut self, tag: &str) -> String {
         self.seq += 1;
         let d = format!("{}/{}{}", self.root, tag, self.seq);
@@ -618,7 +631,18 @@ fn judge(out: &Value, allowed: &[Value], must_be: Option<&Value>) -> Result<(), 
     }
     let st = &out["ok"];
     if let Some(m) = must_be { return if st == m { Ok(()) } else { Err(format!("reopened content differs from what was synced: got {} want {}", brief(st), brief(m))) }; }
-    if allowed.iter().any(|a| a == st) { Ok(()) } else { Err(format!("reopened state never existed at an earlier point of the history: {}", brief(st))) }
+    if allowed.iter().any(|a| a == st) { Ok(()) } else { Err(format!("reopened state never existed at an earlier point of the history: {}{}", brief(st), allowed.last().map(|a| diff_hint(st, a)).unwrap_or_default())) }
+}
+/// where a reopened state first differs from the latest allowed one (diagnostics only)
+fn diff_hint(got: &Value, want: &Value) -> String {
+    for key in ["values", "elems", "records"] {
+        if let (Some(g), Some(w)) = (got.get(key).and_then(|x| x.as_array()), want.get(key).and_then(|x| x.as_array())) {
+            let i = (0..g.len().min(w.len())).find(|&i| g[i] != w[i]).unwrap_or(g.len().min(w.len()));
+            return format!(" [{}: {} entries, latest state has {}; first difference at index {}: {} vs {}]", key, g.len(), w.len(), i,
+                           g.get(i).map(|x| brief(x)).unwrap_or("-".into()), w.get(i).map(|x| brief(x)).unwrap_or("-".into()));
+        }
+    }
+    String::new()
 }
 fn brief(v: &Value) -> String { let s = v.to_string(); if s.len() > 300 { format!("{}...", &s[..300]) } else { s } }
 
@@ -628,12 +652,20 @@ fn brief(v: &Value) -> String { let s = v.to_string(); if s.len() > 300 { format
 fn judge_trace(cx: &mut Ctx, cell: &str, rkey: &str, class_of: &dyn Fn(&Value, &str, &str) -> Option<&'static str>, cj: &Value, extra: &Value, target: &str, dir_target: bool,
                ops: &[Op], marks: &[usize], states: &[Value], final_must: Option<&Value>, byte_marks: &[usize], r: &mut Rng, exhaustive: bool,
                img_state: Option<&dyn Fn(&Disk) -> Vec<Value>>) -> Option<Disk> {
-    let init = Disk::new();
+    judge_trace_from(cx, &Disk::new(), cell, rkey, class_of, cj, extra, target, dir_target, ops, marks, states, final_must, byte_marks, r, exhaustive, img_state)
+}
+/// the same, over files that exist before the traced history starts (`init`)
+#[allow(clippy::too_many_arguments)]
+fn judge_trace_from(cx: &mut Ctx, init: &Disk, cell: &str, rkey: &str, class_of: &dyn Fn(&Value, &str, &str) -> Option<&'static str>, cj: &Value, extra: &Value, target: &str, dir_target: bool,
+               ops: &[Op], marks: &[usize], states: &[Value], final_must: Option<&Value>, byte_marks: &[usize], r: &mut Rng, exhaustive: bool,
+               img_state: Option<&dyn Fn(&Disk) -> Vec<Value>>) -> Option<Disk> {
+    let init = init.clone();
     let mut fin = init.clone();
     for op in ops { apply(&mut fin, op); }
     let extra_pts = if cx.thorough { 24 } else { 6 };
     let imgs = crash_images(&init, ops, byte_marks, r, exhaustive, extra_pts);
     cx.sum.dist_max("max_trace_ops", ops.len() as u64);
+    if std::env::var("ZV_C19_DEBUG").is_ok() { eprintln!("trace: {}", serde_json::to_string(&ops.iter().map(op_brief).collect::<Vec<_>>()).unwrap_or_default()); }
     for im in imgs {
         // history op in progress at the crash
         let i = marks.iter().position(|&m| if im.torn { m > im.when } else { m >= im.when }).unwrap_or(marks.len().saturating_sub(1));
@@ -703,11 +735,25 @@ fn tracer_in_sync(dir: &str, sim: &Disk) -> Result<(), String> {
     Err(why)
 }
 
+/// a traced operation as a Coq `fop`, the file `main` numbered 1 and every other file 2
+fn fop_term(op: &Op, main: &str) -> String {
+    let num = |p: &str| if p == main { 1 } else { 2 };
+    match op {
+        Op::Open { p, creat, trunc } => format!("FOpen {} {} {}", num(p), coq_bool(*creat), coq_bool(*trunc)),
+        Op::SetLen { p, n } => format!("FSetLen {} {}", num(p), n),
+        Op::Write { p, off, data } => format!("FWrite {} {} {}", num(p), off, coq_bytes(data)),
+        Op::Fsync { p } => format!("FFsync {}", num(p)),
+        Op::Rename { a, b } => format!("FRename {} {}", num(a), num(b)),
+        Op::Unlink { p } => format!("FUnlink {}", num(p)),
+    }
+}
+fn coq_bytes_list(xs: &[Vec<u8>]) -> String { format!("[{}]", xs.iter().map(|b| coq_bytes(b)).collect::<Vec<_>>().join("; ")) }
+
 /// Correspondence of the write protocol: the traced operations of one sync()/put()/save, with the target file
 /// numbered 1 and the temporary file 2 and the writes that build the temporary file merged into one, must be the
 /// modelled atomic-replace sequence.  Anything of another shape is emitted as traced.
 fn protocol_case(cx: &mut Ctx, seg: &[Op], main: &str, what: &str) {
-    if cx.proto >= 160 || cx.shards.len() >= cx.budget { return; }
+    if cx.proto >= 160 || cx.old_used() >= cx.budget { return; }
     let mut d = Disk::new();
     for op in seg { apply(&mut d, op); }
     let img = match d.get(main) { Some(b) if b.len() <= 1400 => b.clone(), _ => return };
@@ -739,12 +785,13 @@ fn protocol_case(cx: &mut Ctx, seg: &[Op], main: &str, what: &str) {
     for t in &terms { h = fnv64(t.as_bytes(), h); }
     if !cx.coq_seen.insert(h) { return; }
     cx.proto += 1;
-    cx.shards.push(format!("(COps [{}] {})", terms.join("; "), coq_bytes(&img)), json!({"cell": "protocol", "what": what, "ops": seg.iter().map(op_brief).collect::<Vec<_>>()}));
+    cx.shards.push(format!("(XOld (COps [{}] {}))", terms.join("; "), coq_bytes(&img)), json!({"cell": "protocol", "what": what, "ops": seg.iter().map(op_brief).collect::<Vec<_>>()}));
 }
 
 // ------------------------------------------------------------------ MmapVec
 // op codes: 0 push v | 1 pop | 2 set i v | 3 truncate n | 4 clear | 5 reserve n | 6 shrink_to_fit | 7 resize n v
 //           8 extend count start | 9 push_bulk count start | 10 sync | 11 sync, drop, open again
+//           12 copy_from_simd count start (the source vector holds start, start+1, ... and lives outside the traced directory)
 fn mv_state(sh: &[u64]) -> Value { json!({"len": sh.len(), "elems": sh}) }
 
 fn mv_case<T: El>(cx: &mut Ctx, ic: usize, growth: f64, sow: bool, ops: &[Vec<u64>], exhaustive: bool) {
@@ -755,6 +802,7 @@ fn mv_case<T: El>(cx: &mut Ctx, ic: usize, growth: f64, sow: bool, ops: &[Vec<u6
     let mut r = Rng::new(fnv64(cj.to_string().as_bytes(), 7));
     let dir = cx.fresh_dir("mv");
     let path = format!("{}/v.bin", dir);
+    let src_path = format!("{}/mvsrc{}.bin", cx.root, cx.seq);
     let mk = || { let mut c = MmapVecConfig::default(); c.initial_capacity = ic; c.growth_factor = growth; c.sync_on_write = sow; c };
     let mask: u64 = if T::ES == 8 { u64::MAX } else { (1u64 << (T::ES * 8)) - 1 };
     let mut shadow: Vec<u64> = vec![];
@@ -763,6 +811,8 @@ fn mv_case<T: El>(cx: &mut Ctx, ic: usize, growth: f64, sow: bool, ops: &[Vec<u6
     let mut last_sync: Option<usize> = None;
     let mut problem: Option<String> = None;
     let mut sync_segs: Vec<(usize, usize)> = vec![];
+    let mut obs: Vec<[u64; 3]> = vec![];          // len, capacity, file length after each operation
+    let mut gtab: Vec<(u64, u64)> = vec![];       // capacity at the start of an operation -> (capacity as f64 * growth) as usize
     trace::start(&dir);
     let res = guarded(|| {
         let mut v = match MmapVec::<T>::create(&path, mk()) { Ok(v) => v, Err(e) => { problem = Some(format!("create failed: {}", e)); return; } };
@@ -770,6 +820,7 @@ fn mv_case<T: El>(cx: &mut Ctx, ic: usize, growth: f64, sow: bool, ops: &[Vec<u6
         for (k, op) in ops.iter().enumerate() {
             let a = op.get(1).copied().unwrap_or(0);
             let b = op.get(2).copied().unwrap_or(0);
+            { let c = v.capacity() as u64; if !gtab.iter().any(|g| g.0 == c) { gtab.push((c, (c as f64 * growth) as usize as u64)); } }
             let rr: Result<(), String> = match op.first().copied().unwrap_or(99) {
                 0 => v.push(T::from(a)).map(|_| shadow.push(a & mask)).map_err(|e| e.to_string()),
                 1 => { let g = v.pop().map(|x| x.to()); let w = shadow.pop(); if g == w { Ok(()) } else { Err(format!("pop = {:?}, a Vec gives {:?}", g, w)) } }
@@ -788,12 +839,18 @@ fn mv_case<T: El>(cx: &mut Ctx, ic: usize, growth: f64, sow: bool, ops: &[Vec<u6
                 10 => { last_sync = Some(states.len()); let t0 = trace::len(); let r = v.sync().map_err(|e| e.to_string()); sync_segs.push((t0, trace::len())); r }
                 11 => { last_sync = Some(states.len());
                         match v.sync() { Err(e) => Err(e.to_string()), Ok(()) => { drop(v); match MmapVec::<T>::open(&path, mk()) { Ok(nv) => { v = nv; Ok(()) } Err(e) => { problem = Some(format!("op {}: open after sync failed: {}", k, e)); return; } } } } }
+                12 => { let it: Vec<T> = (0..a).map(|i| T::from(b.wrapping_add(i))).collect();
+                        let mut sc = MmapVecConfig::default(); sc.initial_capacity = (a as usize).max(1);
+                        let r = MmapVec::<T>::create(&src_path, sc).and_then(|mut src| { src.extend(it)?; v.copy_from_simd(&src) }).map_err(|e| e.to_string());
+                        let _ = std::fs::remove_file(&src_path);
+                        r.map(|_| { shadow.clear(); for i in 0..a { shadow.push(b.wrapping_add(i) & mask) } }) }
                 _ => Ok(()),
             };
             if let Err(e) = rr { problem = Some(format!("op {} {:?} failed: {}", k, op, e)); return; }
             if v.len() != shadow.len() { problem = Some(format!("op {} {:?}: len {} but a Vec holds {}", k, op, v.len(), shadow.len())); return; }
             if let Some(&w) = shadow.last() { if v.get(shadow.len() - 1).map(|x| x.to()) != Some(w) { problem = Some(format!("op {} {:?}: last element differs in the live vector", k, op)); return; } }
             states.push(mv_state(&shadow)); marks.push(trace::len());
+            obs.push([v.len() as u64, v.capacity() as u64, std::fs::metadata(&path).map(|m| m.len()).unwrap_or(u64::MAX)]);
         }
         drop(v);
     });
@@ -823,6 +880,33 @@ fn mv_case<T: El>(cx: &mut Ctx, ic: usize, growth: f64, sow: bool, ops: &[Vec<u6
         }
     }
     for (a, b) in sync_segs { if b <= tr.len() && a < b { protocol_case(cx, &tr[a..b], "v.bin", "MmapVec::sync"); } }
+    // the whole traced history = create, then syncs and resize_to_capacity units over well-formed images
+    // (the decidable hypotheses of mv_traced_history_crash_safe)
+    {
+        let bytes: usize = tr.iter().map(|o| if let Op::Write { data, .. } = o { data.len() } else { 0 }).sum();
+        if bytes <= 9000 && cx.n_units < if cx.thorough { 300 } else { 36 } && cx.coq_seen.insert(fnv64(cj.to_string().as_bytes(), 0x756e)) {
+            cx.n_units += 1;
+            cx.shards.push(format!("(XMvUnits {} {} [{}])", es, ic, tr.iter().map(|o| fop_term(o, "v.bin")).collect::<Vec<_>>().join("; ")),
+                           json!({"cell": "mmapvec_units", "es": es, "ic": ic, "growth": growth, "sync_on_write": sow, "ops": ops}));
+        }
+    }
+    // correspondence of the operation state machine: header fields and file length after every operation, the elements at the end
+    {
+        let vals = |count: u64, start: u64| -> String { coq_n_list((0..count).map(|i| (start.wrapping_add(i) & mask) as u128)) };
+        let volume: u64 = ops.iter().map(|o| match o[0] { 8 | 9 | 12 => o[1], 7 => o[1], _ => 1 }).sum::<u64>() + shadow.len() as u64;
+        if obs.len() == ops.len() && volume <= 700 && cx.n_mvops < if cx.thorough { 900 } else { 150 } && cx.coq_seen.insert(fnv64(cj.to_string().as_bytes(), 0x4d76)) {
+            let terms: Vec<String> = ops.iter().map(|o| { let a = o.get(1).copied().unwrap_or(0); let b = o.get(2).copied().unwrap_or(0); match o[0] {
+                0 => format!("OPush {}", a & mask), 1 => "OPop".into(), 2 => format!("OSet {} {}", a, b & mask), 3 => format!("OTruncate {}", a), 4 => "OClear".into(),
+                5 => format!("OReserve {}", a), 6 => "OShrink".into(), 7 => format!("OResize {} {}", a, b & mask), 8 => format!("OExtend {} {}", a, vals(a, b)),
+                9 => format!("OBulk {}", vals(a, b)), 10 => "OSync".into(), 11 => "OReopen".into(), 12 => format!("OCopyFrom {}", vals(a, b)), _ => "OSync".into() } }).collect();
+            cx.n_mvops += 1;
+            cx.shards.push(format!("(XMvOps {} {} {} [{}] [{}] [{}] {})", es, ic, coq_bool(sow),
+                                   gtab.iter().map(|g| format!("({}, {})", g.0, g.1)).collect::<Vec<_>>().join("; "), terms.join("; "),
+                                   obs.iter().map(|o| format!("[{}; {}; {}]", o[0], o[1], o[2])).collect::<Vec<_>>().join("; "),
+                                   coq_n_list(shadow.iter().map(|&x| x as u128))),
+                           json!({"cell": "mmapvec_ops", "es": es, "ic": ic, "growth": growth, "sync_on_write": sow, "ops": ops}));
+        }
+    }
     // correspondence cases: small final images and a few damaged ones, with what the real reader saw
     if let Some(fin) = fin {
         if let Some(f) = fin.get("v.bin") {
@@ -836,7 +920,7 @@ fn mv_case<T: El>(cx: &mut Ctx, ic: usize, growth: f64, sow: bool, ops: &[Vec<u6
 }
 
 fn mv_coq_case(cx: &mut Ctx, es: usize, img: &[u8]) {
-    if img.len() > 1400 || cx.shards.len() >= cx.budget || cx.n_mv * 2 >= cx.budget { return; }
+    if img.len() > 1400 || cx.old_used() >= cx.budget || cx.n_mv * 2 >= cx.budget { return; }
     let h = fnv64(img, es as u64);
     if !cx.coq_seen.insert(h) { return; }
     cx.n_mv += 1;
@@ -847,7 +931,7 @@ fn mv_coq_case(cx: &mut Ctx, es: usize, img: &[u8]) {
         for e in st["elems"].as_array().unwrap() { v.push(e.as_u64().unwrap() as i128); }
         v
     } else if out.get("err").is_some() { vec![-1] } else { vec![-2] };
-    cx.shards.push(format!("(CMv {} {} {})", es, coq_bytes(img), coq_z_list(expect)), json!({"cell": "mmapvec_image", "es": es, "image": hex(img)}));
+    cx.shards.push(format!("(XOld (CMv {} {} {}))", es, coq_bytes(img), coq_z_list(expect)), json!({"cell": "mmapvec_image", "es": es, "image": hex(img)}));
 }
 
 fn gen_mv(r: &mut Rng, big: bool) -> (usize, usize, f64, bool, Vec<Vec<u64>>) {
@@ -870,12 +954,32 @@ fn gen_mv(r: &mut Rng, big: bool) -> (usize, usize, f64, bool, Vec<Vec<u64>>) {
             12 => { ops.push(vec![6]); }
             13 => { let k = *r.pick(&[0u64, 1, 5, 40, 520]); let k = if big { k } else { k.min(len + 60) }; ops.push(vec![7, k, val(r)]); len = k; }
             14..=15 => { let c = *r.pick(&[1u64, 3, 9, 70, 300]); ops.push(vec![8, c, r.next()]); len += c; }
-            16 => { let c = *r.pick(&[1u64, 7, 8, 9, 64, 200]); ops.push(vec![9, c, r.next()]); len += c; }
+            16 => { if r.chance(1, 2) { let c = *r.pick(&[1u64, 7, 8, 9, 64, 200]); ops.push(vec![9, c, r.next()]); len += c; }
+                    else { let base = (ic as u64).max(1); let c = match r.below(7) { 0 => 0, 1 => 1, 2 => base, 3 => base * 3 / 2, 4 => base * 17 / 10 + 1, 5 => base * 2, _ => (base * 10).min(2500) };
+                           ops.push(vec![12, c, r.next()]); len = c; } }
             17..=18 => { ops.push(vec![10]); }
             _ => { ops.push(vec![11]); }
         }
     }
     if r.chance(9, 10) { ops.push(vec![10]); }
+    (es, ic, growth, sow, ops)
+}
+/// copy_from_simd into a destination that is not full (len < capacity), from sources of 1x .. 10x the capacity,
+/// then (optionally push / extend and) sync, reopen, read everything
+fn gen_mv_copy(r: &mut Rng, i: usize) -> (usize, usize, f64, bool, Vec<Vec<u64>>) {
+    let es = *r.pick(&[1usize, 2, 4, 8, 8]);
+    let ic = *r.pick(&[8usize, 8, 3, 16, 64, 100]);
+    let growth = *r.pick(&[1.0f64, 1.1, 1.5, 1.618, 1.618, 2.0]);
+    let sow = r.chance(1, 5);
+    let used = match r.below(4) { 0 => 0, 1 => 3.min(ic as u64 - 1), 2 => ic as u64 / 2, _ => ic as u64 - 1 };
+    let mut ops: Vec<Vec<u64>> = vec![];
+    if used > 0 { if r.chance(1, 2) { ops.push(vec![8, used, r.next()]); } else { for _ in 0..used { ops.push(vec![0, 1 + r.below(250)]); } } }
+    let c = ic as u64;
+    let factor = [c, c * 3 / 2, c * 17 / 10 + 1, c * 2, c * 10, c * 10 + 1, c + 1][i % 7];
+    ops.push(vec![12, factor, r.next()]);
+    match r.below(4) { 0 => ops.push(vec![0, 1 + r.below(250)]), 1 => ops.push(vec![8, *r.pick(&[1u64, 3, 9, 70]), r.next()]), 2 => ops.push(vec![9, *r.pick(&[1u64, 8, 64]), r.next()]), _ => {} }
+    ops.push(vec![if r.chance(1, 2) { 10 } else { 11 }]);
+    if r.chance(1, 3) { ops.push(vec![0, 7]); ops.push(vec![10]); }
     (es, ic, growth, sow, ops)
 }
 fn run_mv(cx: &mut Ctx, es: usize, ic: usize, growth: f64, sow: bool, ops: &[Vec<u64>], exhaustive: bool) {
@@ -884,22 +988,34 @@ fn run_mv(cx: &mut Ctx, es: usize, ic: usize, growth: f64, sow: bool, ops: &[Vec
 }
 
 // ------------------------------------------------------------------ PlainBlobStore
-// ops: [0, hex] put | [1, k] remove the k-th live id | [2] drop and open the directory again
-fn plain_case(cx: &mut Ctx, ops: &[Value], exhaustive: bool) {
+// ops: [0, hex] put | [1, k] remove the k-th live id | [2] drop and open the directory again | [3, id] remove an id that holds no record
+// leftover > 0: temporary files `.1.tmp` .. `.6.tmp` of that many bytes exist before the history starts (what interrupted
+// puts leave behind); a later put with that id must publish exactly its own data
+fn plain_case(cx: &mut Ctx, ops: &[Value], leftover: usize, exhaustive: bool) {
     let cell = "PlainBlobStore";
-    let cj = json!({"cell": "plain", "ops": ops, "exhaustive": exhaustive});
+    let cj = json!({"cell": "plain", "ops": ops, "leftover": leftover, "exhaustive": exhaustive});
     dbg_case(&cj);
     cx.sum.eval(cell, &cj.to_string(), ops.len() >= 2);
-    cx.sum.cell_status(cell, "S-only");
+    cx.sum.cell_status(cell, "M+S");
     let mut r = Rng::new(fnv64(cj.to_string().as_bytes(), 11));
     let dir = cx.fresh_dir("pl");
     let sdir = format!("{}/store", dir);
     std::fs::create_dir_all(&sdir).unwrap();
+    let mut init = Disk::new();
+    if leftover > 0 {
+        for id in 1..=6u32 {
+            let g: Vec<u8> = (0..leftover).map(|i| 0xA0u8.wrapping_add((i as u8).wrapping_mul(7)).wrapping_add(id as u8)).collect();
+            std::fs::write(format!("{}/.{}.tmp", sdir, id), &g).unwrap();
+            init.insert(format!("store/.{}.tmp", id), g);
+        }
+    }
     let mut shadow: BTreeMap<u32, Vec<u8>> = BTreeMap::new();
     let st_json = |m: &BTreeMap<u32, Vec<u8>>| { let mut o = serde_json::Map::new(); for (k, v) in m { o.insert(k.to_string(), json!(hex(v))); } json!({"records": Value::Object(o)}) };
     let mut states = vec![]; let mut marks = vec![];
     let mut problem: Option<String> = None;
     let mut put_segs: Vec<(usize, usize, u32)> = vec![];
+    let mut hops: Vec<String> = vec![];       // the history as the model's phop list
+    let mut volume = 0usize;
     trace::start(&dir);
     let res = guarded(|| {
         let mut st = match PlainBlobStore::new(&sdir) { Ok(s) => s, Err(e) => { problem = Some(e.to_string()); return; } };
@@ -908,31 +1024,49 @@ fn plain_case(cx: &mut Ctx, ops: &[Value], exhaustive: bool) {
             match op[0].as_u64().unwrap_or(9) {
                 0 => { let data = unhex(op[1].as_str().unwrap_or(""));
                        let t0 = trace::len();
+                       hops.push(format!("HPut {}", coq_bytes(&data))); volume += data.len();
                        match st.put(&data) { Ok(id) => { put_segs.push((t0, trace::len(), id)); if shadow.contains_key(&id) { problem = Some(format!("op {}: put reused live id {}", k, id)); return; } shadow.insert(id, data); }
                                              Err(e) => { problem = Some(format!("op {}: put failed: {}", k, e)); return; } } }
                 1 => { let ids: Vec<u32> = shadow.keys().copied().collect();
                        if !ids.is_empty() { let id = ids[op[1].as_u64().unwrap_or(0) as usize % ids.len()];
+                           hops.push(format!("HRemove {}", id));
                            if let Err(e) = st.remove(id) { problem = Some(format!("op {}: remove failed: {}", k, e)); return; } shadow.remove(&id); } }
-                2 => { drop(st); st = match PlainBlobStore::new(&sdir) { Ok(s) => s, Err(e) => { problem = Some(e.to_string()); return; } }; }
+                2 => { hops.push("HReopen".into()); drop(st); st = match PlainBlobStore::new(&sdir) { Ok(s) => s, Err(e) => { problem = Some(e.to_string()); return; } }; }
+                3 => { let id = op[1].as_u64().unwrap_or(0) as u32;
+                       if !shadow.contains_key(&id) { hops.push(format!("HRemove {}", id)); if st.remove(id).is_ok() { problem = Some(format!("op {}: remove of the absent id {} succeeded", k, id)); return; } } }
                 _ => {}
             }
-            for (id, d) in &shadow { if st.get(*id).ok().as_ref() != Some(d) { problem = Some(format!("op {}: live store does not return record {}", k, id)); return; } }
+            for (id, d) in &shadow { if st.get(*id).ok().as_ref() != Some(d) { problem = Some(format!("op {}: live store does not return record {} as it was put ({} bytes, got {:?} bytes)", k, id, d.len(), st.get(*id).ok().map(|x| x.len()))); return; } }
             states.push(st_json(&shadow)); marks.push(trace::len());
         }
     });
     let tr = trace::stop();
     if let Err(p) = res { problem = Some(format!("writer panicked: {}", p)); }
     if let Some(p) = problem { cx.sum.fail(cell, None, cj, &p); return; }
-    let mut sim = Disk::new();
+    let mut sim = init.clone();
     for op in &tr { apply(&mut sim, op); }
     if let Err(w) = tracer_in_sync(&dir, &sim) { panic!("C19 tracer out of sync with the file system:{}", w); }
     // an arbitrary cut of a finished, fsynced record file is not detectable in a format without framing
     let class_of = |out: &Value, kind: &str, _why: &str| -> Option<&'static str> {
-        if kind.starts_with("truncate:") && out.get("ok").is_some() { Some("plain_record_unframed") } else { None }
+        if kind.starts_with("truncate:") && !kind.contains(".tmp@") && out.get("ok").is_some() { Some("plain_record_unframed") } else { None }
     };
     for (a, b, id) in put_segs { if b <= tr.len() && a < b { protocol_case(cx, &tr[a..b], &format!("store/{}", id), "PlainBlobStore::put"); } }
+    // the whole history refined to named file operations by the model (ids from the model's counter and rescan)
+    if volume <= 2500 && cx.n_plain < if cx.thorough { 500 } else { 48 } && cx.coq_seen.insert(fnv64(cj.to_string().as_bytes(), 0x706c)) {
+        let name = |p: &str| coq_bytes(p.strip_prefix("store/").unwrap_or(p).as_bytes());
+        let terms: Vec<String> = tr.iter().map(|o| match o {
+            Op::Open { p, creat, trunc } => format!("NOpen {} {} {}", name(p), coq_bool(*creat), coq_bool(*trunc)),
+            Op::SetLen { p, n } => format!("NSetLen {} {}", name(p), n),
+            Op::Write { p, off, data } => format!("NWrite {} {} {}", name(p), off, coq_bytes(data)),
+            Op::Fsync { p } => format!("NFsync {}", name(p)),
+            Op::Rename { a, b } => format!("NRename {} {}", name(a), name(b)),
+            Op::Unlink { p } => format!("NUnlink {}", name(p)),
+        }).collect();
+        cx.n_plain += 1;
+        cx.shards.push(format!("(XPlainHist [{}] [{}])", hops.join("; "), terms.join("; ")), json!({"cell": "plain_history", "ops": ops, "leftover": leftover}));
+    }
     let fin_state = states.last().cloned();
-    judge_trace(cx, cell, "plain", &class_of, &cj, &json!({}), "store", true, &tr, &marks, &states, fin_state.as_ref(), &[], &mut r, exhaustive, None);
+    judge_trace_from(cx, &init, cell, "plain", &class_of, &cj, &json!({}), "store", true, &tr, &marks, &states, fin_state.as_ref(), &[], &mut r, exhaustive, None);
     let _ = std::fs::remove_dir_all(&dir);
 }
 fn gen_plain(r: &mut Rng) -> Vec<Value> {
@@ -941,7 +1075,8 @@ fn gen_plain(r: &mut Rng) -> Vec<Value> {
     for _ in 0..n {
         match r.below(8) {
             0..=4 => { let len = *r.pick(&[0usize, 1, 2, 5, 17, 100, 4095, 4096, 4097, 9000]); let len = if r.chance(1, 2) { len.min(40) } else { len }; ops.push(json!([0, hex(&r.bytes(len))])); }
-            5..=6 => ops.push(json!([1, r.below(8)])),
+            5 => ops.push(json!([1, r.below(8)])),
+            6 => if r.chance(1, 3) { ops.push(json!([3, *r.pick(&[0u64, 1, 2, 5, 4294967295])])) } else { ops.push(json!([1, r.below(8)])) },
             _ => ops.push(json!([2])),
         }
     }
@@ -964,6 +1099,7 @@ fn reorder_case(cx: &mut Ctx, builds: &[Value], exhaustive: bool) {
     let mut problem: Option<String> = None;
     let mut refused = false;
     let mut last: (Vec<u64>, bool) = (vec![], false);
+    let mut build_segs: Vec<(usize, usize)> = vec![];
     trace::start(&dir);
     let res = guarded(|| {
         for (k, b) in builds.iter().enumerate() {
@@ -971,7 +1107,9 @@ fn reorder_case(cx: &mut Ctx, builds: &[Value], exhaustive: bool) {
             let neg = b["neg"].as_bool().unwrap_or(false);
             let mut bl = match ZReorderMapBuilder::new(&path, vals.len(), if neg { -1 } else { 1 }) { Ok(b) => b, Err(e) => { problem = Some(format!("build {}: new failed: {}", k, e)); return; } };
             for &v in &vals { if let Err(_) = bl.push(v as usize) { refused = true; return; } }
+            let t0 = build_segs.last().map(|s: &(usize, usize)| s.1).unwrap_or(0);
             if let Err(e) = bl.finish() { problem = Some(format!("build {}: finish failed: {}", k, e)); return; }
+            build_segs.push((t0, trace::len()));
             states.push(reorder_state(&vals)); marks.push(trace::len());
             last = (vals, neg);
         }
@@ -984,12 +1122,25 @@ fn reorder_case(cx: &mut Ctx, builds: &[Value], exhaustive: bool) {
     for op in &tr { apply(&mut sim, op); }
     if let Err(w) = tracer_in_sync(&dir, &sim) { panic!("C19 tracer out of sync with the file system:{}", w); }
     let none = |_: &Value, _: &str, _: &str| -> Option<&'static str> { None };
+    for (a, b) in &build_segs { if *b <= tr.len() && a < b { protocol_case(cx, &tr[*a..*b], "m.bin", "ZReorderMapBuilder::finish"); } }
+    // the builder's writes: header, every flush of the 4096-byte buffer, the rest in finish() - as the model refines them
+    if let (Some((a, b)), true) = (build_segs.last().copied(), build_segs.len() == builds.len()) {
+        let seg = &tr[a..b.min(tr.len())];
+        let bytes: usize = seg.iter().map(|o| if let Op::Write { data, .. } = o { data.len() } else { 0 }).sum();
+        let big = bytes > 1300;
+        let room = if big { cx.n_row_big < if cx.thorough { 40 } else { 9 } } else { cx.n_row - cx.n_row_big < if cx.thorough { 300 } else { 24 } };
+        if room && bytes + last.0.len() <= 36000 && cx.coq_seen.insert(fnv64(cj.to_string().as_bytes(), 0x526f57)) {
+            cx.n_row += 1; if big { cx.n_row_big += 1; }
+            cx.shards.push(format!("(XRoW {} {} [{}])", coq_n_list(last.0.iter().map(|&v| v as u128)), coq_bool(last.1), seg.iter().map(|o| fop_term(o, "m.bin")).collect::<Vec<_>>().join("; ")),
+                           json!({"cell": "reorder_writes", "values": last.0, "neg": last.1}));
+        }
+    }
     let fin_state = states.last().cloned();
     let fin = judge_trace(cx, cell, "reorder", &none, &cj, &json!({}), "m.bin", false, &tr, &marks, &states, fin_state.as_ref(), &[16, 21], &mut r, exhaustive, None);
     if let Some(f) = fin.as_ref().and_then(|d| d.get("m.bin")) {
-        if f.len() <= 1200 && cx.shards.len() < cx.budget {
+        if f.len() <= 1200 && cx.old_used() < cx.budget {
             // the builder emits the modelled format; the reader agrees with the model on the file and on damaged copies
-            cx.shards.push(format!("(CRoEnc {} {} {})", coq_n_list(last.0.iter().map(|&v| v as u128)), coq_bool(last.1), coq_bytes(f)),
+            cx.shards.push(format!("(XOld (CRoEnc {} {} {}))", coq_n_list(last.0.iter().map(|&v| v as u128)), coq_bool(last.1), coq_bytes(f)),
                            json!({"cell": "reorder_encode", "values": last.0, "neg": last.1}));
             let mut imgs = vec![f.clone()];
             for t in [f.len() - 1, f.len() / 2, 16, 21] { if t < f.len() { imgs.push(f[..t].to_vec()); } }
@@ -1000,7 +1151,7 @@ fn reorder_case(cx: &mut Ctx, builds: &[Value], exhaustive: bool) {
     let _ = std::fs::remove_dir_all(&dir);
 }
 fn reorder_coq_case(cx: &mut Ctx, img: &[u8]) {
-    if img.len() > 1200 || cx.shards.len() >= cx.budget || cx.n_ro * 3 >= cx.budget { return; }
+    if img.len() > 1200 || cx.old_used() >= cx.budget || cx.n_ro * 3 >= cx.budget { return; }
     if !cx.coq_seen.insert(fnv64(img, 0x77)) { return; }
     cx.n_ro += 1;
     let mut d = Disk::new(); d.insert("m.bin".into(), img.to_vec());
@@ -1011,7 +1162,7 @@ fn reorder_coq_case(cx: &mut Ctx, img: &[u8]) {
         for e in st["values"].as_array().unwrap() { v.push(e.as_u64().unwrap() as i128); }
         v
     } else if out.get("err").is_some() { vec![-1] } else { return };
-    cx.shards.push(format!("(CRo {} {})", coq_bytes(img), coq_z_list(expect)), json!({"cell": "reorder_image", "image": hex(img)}));
+    cx.shards.push(format!("(XOld (CRo {} {}))", coq_bytes(img), coq_z_list(expect)), json!({"cell": "reorder_image", "image": hex(img)}));
 }
 fn gen_reorder(r: &mut Rng) -> Vec<Value> {
     let nb = if r.chance(1, 3) { 2 } else { 1 };
@@ -1037,21 +1188,45 @@ fn gen_reorder(r: &mut Rng) -> Vec<Value> {
     out
 }
 
+/// many short runs: `target` bytes of records (5 bytes per single value, 6 per run of 2..127) so that the builder's
+/// 4096-byte write buffer is flushed once, twice, several times before finish(); `target` = 0: `n` random short runs
+fn gen_reorder_dense(r: &mut Rng, target: usize, n: usize) -> Vec<Value> {
+    let neg = r.chance(1, 3);
+    let top: u64 = 0x7FFFFFFFFF;
+    let mut vals: Vec<u64> = vec![];
+    // value blocks 1000 apart, so that no record continues the previous one
+    let mut blk: u64 = 1 + r.below(50);
+    let mut emit = |vals: &mut Vec<u64>, run: u64, r: &mut Rng| {
+        let start = match r.below(12) { 0 => top - 200 - r.below(3), _ => { blk += 1 + r.below(3); (blk * 1000) % (top - 5000) + 300 } };
+        for i in 0..run { vals.push(if neg { start - i } else { start + i }); }
+    };
+    if target > 0 {
+        // bytes = 5 * singles + 6 * pairs
+        let pairs = { let mut p = 0; while (target - 6 * p) % 5 != 0 { p += 1; } p };
+        let singles = (target - 6 * pairs) / 5;
+        let mut kinds: Vec<u64> = vec![1; singles]; for _ in 0..pairs { kinds.insert(r.below(kinds.len() as u64 + 1) as usize, 2 + r.below(3)); }
+        for k in kinds { emit(&mut vals, k, r); }
+    } else {
+        for _ in 0..n { let k = match r.below(6) { 0 => 2, 1 => 3, 2 => 128 + r.below(2), _ => 1 }; emit(&mut vals, k, r); }
+    }
+    vec![json!({"values": vals, "neg": neg})]
+}
+
 /// a file written once by `write` (traced) whose reopened logical state must be `state`
 fn once_case(cx: &mut Ctx, cell: &'static str, key: &'static str, cj: Value, state: Value, fname: &str, exhaustive: bool,
              class_of: &dyn Fn(&Value, &str, &str) -> Option<&'static str>, write: &mut dyn FnMut(&str) -> Result<(), String>, bm: &[usize],
-             img_state: Option<&dyn Fn(&Disk) -> Vec<Value>>) {
+             img_state: Option<&dyn Fn(&Disk) -> Vec<Value>>) -> Option<(Disk, Vec<Op>)> {
     dbg_case(&cj);
     cx.sum.eval(cell, &cj.to_string(), true);
-    cx.sum.cell_status(cell, "S-only");
+    cx.sum.cell_status(cell, if key == "dict" { "S-only" } else { "M+S" });
     let mut r = Rng::new(fnv64(cj.to_string().as_bytes(), 17));
     let dir = cx.fresh_dir("on");
     let path = format!("{}/{}", dir, fname);
     trace::start(&dir);
     let res = guarded(|| write(&path));
     let tr = trace::stop();
-    match res { Err(p) => { cx.sum.fail(cell, class_of(&json!({}), "writer", &p), cj, &format!("writer panicked: {}", p)); return; }
-                Ok(Err(e)) => { cx.sum.dist(&format!("{}_write_refused", key)); if std::env::var("ZV_C19_DEBUG").is_ok() { eprintln!("refused: {}", e); } let _ = std::fs::remove_dir_all(&dir); return; }
+    match res { Err(p) => { cx.sum.fail(cell, class_of(&json!({}), "writer", &p), cj, &format!("writer panicked: {}", p)); return None; }
+                Ok(Err(e)) => { cx.sum.dist(&format!("{}_write_refused", key)); if std::env::var("ZV_C19_DEBUG").is_ok() { eprintln!("refused: {}", e); } let _ = std::fs::remove_dir_all(&dir); return None; }
                 Ok(Ok(())) => {} }
     let mut sim = Disk::new();
     for op in &tr { apply(&mut sim, op); }
@@ -1060,9 +1235,9 @@ fn once_case(cx: &mut Ctx, cell: &'static str, key: &'static str, cj: Value, sta
     let marks = vec![tr.len()];
     if key == "dict" { protocol_case(cx, &tr, fname, "SuffixArrayDictionary::save_to_file"); }
     if key == "zipoffset" { protocol_case(cx, &tr, fname, "ZipOffsetBlobStore::save_to_file"); }
-    judge_trace(cx, cell, key, class_of, &cj, &json!({}), fname, false, &tr, &marks, &states, Some(&state), bm, &mut r, exhaustive, img_state);
+    let fin = judge_trace(cx, cell, key, class_of, &cj, &json!({}), fname, false, &tr, &marks, &states, Some(&state), bm, &mut r, exhaustive, img_state);
     let _ = std::fs::remove_dir_all(&dir);
-    let _ = key;
+    fin.map(|d| (d, tr))
 }
 
 fn zipoffset_case(cx: &mut Ctx, recs: &[String], checksum: u8, exhaustive: bool) {
@@ -1089,7 +1264,86 @@ fn zipoffset_case(cx: &mut Ctx, recs: &[String], checksum: u8, exhaustive: bool)
     let state = json!({"records": held});
     let none = |_: &Value, _: &str, _: &str| -> Option<&'static str> { None };
     let mut w = |path: &str| -> Result<(), String> { build()?.save_to_file(path).map_err(|e| e.to_string()) };
-    once_case(cx, cell, "zipoffset", cj, state, "s.zob", exhaustive, &none, &mut w, &[128], None);
+    let cb: usize = recs.iter().map(|r| r.len() / 2 + if checksum >= 2 { 4 } else { 0 }).sum();
+    let pad = (16 - cb % 16) % 16;
+    let marks = [128, 128 + cb, 128 + cb + pad, 128 + cb + pad + 32];
+    let got = once_case(cx, cell, "zipoffset", cj, state, "s.zob", exhaustive, &none, &mut w, &marks, None);
+    // correspondence: the model's image and operations for these records; the model's loader on the file and on damaged copies
+    if let Some((fin, tr)) = got {
+        if let Some(f) = fin.get("s.zob") {
+            if f.len() <= 1500 {
+                let rb: Vec<Vec<u8>> = recs.iter().map(|r| unhex(r)).collect();
+                if cx.n_zosave < if cx.thorough { 120 } else { 16 } && cx.coq_seen.insert(fnv64(f, 0x205a)) {
+                    cx.n_zosave += 1;
+                    cx.shards.push(format!("(XZoSave {} {} {})", checksum, coq_bytes_list(&rb), coq_bytes(f)), json!({"cell": "zipoffset_save", "records": recs, "checksum": checksum}));
+                    cx.shards.push(format!("(XZoOps {} {} [{}])", checksum, coq_bytes_list(&rb), tr.iter().map(|o| fop_term(o, "s.zob")).collect::<Vec<_>>().join("; ")),
+                                   json!({"cell": "zipoffset_ops", "records": recs, "checksum": checksum, "ops": tr.iter().map(op_brief).collect::<Vec<_>>()}));
+                }
+                let mut r = Rng::new(fnv64(f, 0x51));
+                let mut imgs: Vec<Vec<u8>> = vec![f.clone()];
+                let n = f.len();
+                for t in [n - 1, n - 63, n - 64, n.saturating_sub(65), 128 + cb + pad + 31, 128 + cb + pad, (128 + cb + pad).saturating_sub(1), 128 + cb, 128 + cb / 2, 128, 127, 64, 0] { if t < n { imgs.push(f[..t].to_vec()); } }
+                // header fields, configuration bytes, the offset index: one bit flipped
+                for _ in 0..6 {
+                    let i = match r.below(4) { 0 => 40 + r.below(43) as usize, 1 => r.below(40) as usize, 2 => 128 + cb + pad + r.below(32) as usize, _ => 128 + r.below((n - 128) as u64) as usize };
+                    if i < n { let mut g = f.clone(); g[i] ^= 1 << r.below(8); imgs.push(g); }
+                }
+                // a longer file (bytes after the footer), and the content length field off by one
+                let mut g = f.clone(); g.extend_from_slice(&[7, 7, 7]); imgs.push(g);
+                // single header fields off by one / out of range: record count, content bytes, offsets bytes, version,
+                // log2 block units, checksum level, compress level, element count and widths of the offset vector
+                let o = 128 + cb + pad;
+                for (i, d) in [(56usize, 1i16), (56, -1), (64, 1), (64, -1), (72, 1), (72, -1), (62, 1), (80, -3), (80, 3), (81, 4), (82, 23), (o, 1), (o, -1), (o + 8, 1), (o + 9, -9), (o + 10, 40), (o + 16, 1), (o + 24, -1)] {
+                    if i < n { let mut g = f.clone(); g[i] = (g[i] as i16 + d) as u8; imgs.push(g); }
+                }
+                // a sample of them per file (the final image always), so that every file contributes
+                let first = imgs.remove(0);
+                for i in (1..imgs.len()).rev() { let j = r.below(i as u64 + 1) as usize; imgs.swap(i, j); }
+                imgs.truncate(if cx.thorough { 40 } else { 12 });
+                zo_coq_case(cx, &first);
+                for im in imgs { zo_coq_case(cx, &im); }
+            }
+        }
+    }
+}
+fn zo_coq_case(cx: &mut Ctx, img: &[u8]) {
+    if img.len() > 1600 || cx.n_zo >= if cx.thorough { 2500 } else { 240 } { return; }
+    if !cx.coq_seen.insert(fnv64(img, 0x20)) { return; }
+    let mut d = Disk::new(); d.insert("s.zob".into(), img.to_vec());
+    let out = cx.observe("zipoffset_full", &json!({}), &d, "s.zob", false);
+    let expect: String = if let Some(st) = out.get("ok") {
+        let mut v = vec![format!("[{}%Z]", st["len"].as_u64().unwrap_or(0))];
+        for g in st["gets"].as_array().unwrap() {
+            match g.as_str() { Some(h) => { let mut e = vec![1i128]; e.extend(unhex(h).iter().map(|&b| b as i128)); v.push(coq_z_list(e)); } None => v.push("[0%Z]".into()) }
+        }
+        format!("[{}]", v.join("; "))
+    } else if out.get("err").is_some() { "[[(-1)%Z]]".into() } else { "[[(-2)%Z]]".into() };
+    cx.n_zo += 1;
+    cx.shards.push(format!("(XZoLoad {} {})", coq_bytes(img), expect), json!({"cell": "zipoffset_image", "image": hex(img)}));
+}
+/// record sets for the offset-indexed store: content lengths around the 16-byte padding boundary (0, 15, 16, 17, 31, 32,
+/// 33, 48, 64, 160 bytes with and without the 4-byte record checksums), empty records, more than one 64-entry offset block
+fn gen_zip(r: &mut Rng, i: usize) -> (Vec<String>, u8) {
+    let ck = *r.pick(&[0u8, 0, 2, 2, 3, 1]);
+    let per = if ck >= 2 { 4usize } else { 0 };
+    let recs: Vec<Vec<u8>> = match i % 4 {
+        0 => { let n = *r.pick(&[0usize, 1, 2, 5, 30]); (0..n).map(|_| { let l = *r.pick(&[0usize, 1, 3, 15, 16, 17, 100]); r.bytes(l) }).collect() }
+        1 | 2 => {
+            // total content length exactly `target`
+            let target = *r.pick(&[0usize, 15, 16, 17, 31, 32, 33, 48, 64, 160]);
+            let mut left = target; let mut v = vec![];
+            while left > per || (left == per && per > 0) {
+                let l = (r.below(20) as usize).min(left - per);
+                v.push(r.bytes(l)); left -= l + per;
+                if left == 0 { break; }
+            }
+            if left > 0 && per == 0 { v.push(r.bytes(left)); }
+            if target == 0 && r.chance(1, 2) && per == 0 { v.push(vec![]); v.push(vec![]); }
+            v
+        }
+        _ => { let n = *r.pick(&[63usize, 64, 65, 70, 130]); (0..n).map(|_| { let l = *r.pick(&[0usize, 0, 1, 2, 3]); r.bytes(l) }).collect() }
+    };
+    (recs.iter().map(|b| hex(b)).collect(), ck)
 }
 fn dict_case(cx: &mut Ctx, text: &[u8], minp: usize, maxp: usize, exhaustive: bool) {
     let cj = json!({"cell": "dict", "text": hex(text), "min": minp, "max": maxp, "exhaustive": exhaustive});
@@ -1102,45 +1356,95 @@ fn dict_case(cx: &mut Ctx, text: &[u8], minp: usize, maxp: usize, exhaustive: bo
         if d.data() != text { return Err("dictionary text differs from training data".into()); }
         d.save_to_file(path).map_err(|e| e.to_string())
     };
-    once_case(cx, "SuffixArrayDictionary", "dict", cj, state, "d.dict", exhaustive, &none, &mut w, &[8], None);
+    let _ = once_case(cx, "SuffixArrayDictionary", "dict", cj, state, "d.dict", exhaustive, &none, &mut w, &[8], None);
 }
-fn mmio_case(cx: &mut Ctx, chunks: &[String], initial: usize, exhaustive: bool) {
-    let cj = json!({"cell": "mmio", "chunks": chunks, "initial": initial, "exhaustive": exhaustive});
-    let mut all = vec![]; for c in chunks { all.extend_from_slice(&unhex(c)); }
-    let state = json!({"bytes": hex(&all)});
+// ops: ["w", hex] write_slice | ["s", k] seek to capacity * k / 8 | ["x"] seek past the capacity (must be refused) | ["f"] flush | ["t"] truncate
+// every history ends with flush, truncate, flush
+fn mmio_case(cx: &mut Ctx, ops: &[Value], initial: usize, exhaustive: bool) {
+    let cj = json!({"cell": "mmio", "ops": ops, "initial": initial, "exhaustive": exhaustive});
+    // what the file must hold at the end: a plain byte vector with the same write / seek / truncate semantics
+    let mut sh: Vec<u8> = vec![]; let mut shp = 0usize;
+    let mut seeks: Vec<usize> = vec![];
+    let mut terms: Vec<String> = vec![]; let mut obs: Vec<[u64; 2]> = vec![];
+    let mut volume = 0usize;
     // a raw byte stream has no header: any image is "what the file contains"; the reader must serve exactly
     // the bytes present and refuse reads past them; for crash images that is all that is required
     let class_of = |_: &Value, _: &str, _: &str| -> Option<&'static str> { None };
     let img_state = |d: &Disk| -> Vec<Value> { d.get("o.bin").map(|b| vec![json!({"bytes": hex(b)})]).unwrap_or_default() };
+    let mut full: Vec<Value> = ops.to_vec(); full.push(json!(["f"])); full.push(json!(["t"])); full.push(json!(["f"]));
     let mut w = |path: &str| -> Result<(), String> {
-        let mut o = MemoryMappedOutput::create(path, initial).map_err(|e| e.to_string())?;
-        for c in chunks { o.write_slice(&unhex(c)).map_err(|e| e.to_string())?; }
         use zipora::DataOutput;
-        o.flush().map_err(|e| e.to_string())?;
-        o.truncate().map_err(|e| e.to_string())?;
-        o.flush().map_err(|e| e.to_string())
+        let mut o = MemoryMappedOutput::create(path, initial).map_err(|e| e.to_string())?;
+        for op in &full {
+            match op[0].as_str().unwrap_or("") {
+                "w" => { let d = unhex(op[1].as_str().unwrap_or("")); o.write_slice(&d).map_err(|e| e.to_string())?;
+                         if sh.len() < shp + d.len() { sh.resize(shp + d.len(), 0); } sh[shp..shp + d.len()].copy_from_slice(&d); shp += d.len();
+                         volume += d.len(); terms.push(format!("MWrite {}", coq_bytes(&d))); }
+                "s" => { let p = o.capacity() * (op[1].as_u64().unwrap_or(0) as usize).min(8) / 8; o.seek(p).map_err(|e| e.to_string())?; shp = p; seeks.push(p); terms.push(format!("MSeek {}", p)); }
+                "x" => { if o.seek(o.capacity() + 1).is_ok() { return Err("seek past the capacity succeeded".into()); } continue; }
+                "f" => { o.flush().map_err(|e| e.to_string())?; terms.push("MFlush".into()); }
+                "t" => { o.truncate().map_err(|e| e.to_string())?; if sh.len() < shp { sh.resize(shp, 0); } sh.truncate(shp); terms.push("MTruncate".into()); }
+                _ => continue,
+            }
+            if o.position() != shp { return Err(format!("position {} after {:?}, expected {}", o.position(), op, shp)); }
+            obs.push([o.position() as u64, o.capacity() as u64]);
+        }
+        Ok(())
     };
-    once_case(cx, "MemoryMappedOutput/Input", "mmio", cj, state, "o.bin", exhaustive, &class_of, &mut w, &[], Some(&img_state));
+    // the writer runs inside once_case; the expected final state is known only afterwards, so run the oracle in two steps:
+    // first the writer (traced), then the judgement against the shadow
+    dbg_case(&cj);
+    let cell = "MemoryMappedOutput/Input";
+    cx.sum.eval(cell, &cj.to_string(), true);
+    cx.sum.cell_status(cell, "M+S");
+    let mut r = Rng::new(fnv64(cj.to_string().as_bytes(), 17));
+    let dir = cx.fresh_dir("on");
+    let path = format!("{}/o.bin", dir);
+    trace::start(&dir);
+    let res = guarded(|| w(&path));
+    let tr = trace::stop();
+    match res { Err(p) => { cx.sum.fail(cell, None, cj, &format!("writer panicked: {}", p)); return; }
+                Ok(Err(e)) => { cx.sum.fail(cell, None, cj, &format!("writer failed: {}", e)); let _ = std::fs::remove_dir_all(&dir); return; }
+                Ok(Ok(())) => {} }
+    let mut sim = Disk::new();
+    for op in &tr { apply(&mut sim, op); }
+    if let Err(w) = tracer_in_sync(&dir, &sim) { panic!("C19 tracer out of sync with the file system:{}", w); }
+    let state = json!({"bytes": hex(&sh)});
+    let states = vec![state.clone()];
+    let marks = vec![tr.len()];
+    let fin = judge_trace(cx, cell, "mmio", &class_of, &cj, &json!({}), "o.bin", false, &tr, &marks, &states, Some(&state), &[], &mut r, exhaustive, Some(&img_state));
+    let _ = std::fs::remove_dir_all(&dir);
+    if let Some(f) = fin.as_ref().and_then(|d| d.get("o.bin")) {
+        if volume <= 3000 && initial <= 4096 && cx.n_mmio < if cx.thorough { 120 } else { 14 } && cx.coq_seen.insert(fnv64(cj.to_string().as_bytes(), 0x6d6d)) {
+            cx.n_mmio += 1;
+            cx.shards.push(format!("(XMmio {} [{}] [{}] {})", initial, terms.join("; "), obs.iter().map(|o| format!("[{}; {}]", o[0], o[1])).collect::<Vec<_>>().join("; "), coq_bytes(f)),
+                           json!({"cell": "mmio_ops", "ops": ops, "initial": initial}));
+        }
+    }
 }
 
 // ------------------------------------------------------------------ replay / dispatch
 fn run_one(cx: &mut Ctx, c: &Value) {
     let ex = c["exhaustive"].as_bool().unwrap_or(false);
     match c["cell"].as_str() {
-        Some("mmapvec") => {
+        Some("mmapvec") | Some("mmapvec_ops") | Some("mmapvec_units") => {
             let ops: Vec<Vec<u64>> = c["ops"].as_array().map(|a| a.iter().map(|o| o.as_array().map(|x| x.iter().map(|y| y.as_u64().unwrap_or(0)).collect()).unwrap_or_default()).collect()).unwrap_or_default();
             run_mv(cx, c["es"].as_u64().unwrap_or(8) as usize, c["ic"].as_u64().unwrap_or(0) as usize, c["growth"].as_f64().unwrap_or(1.618), c["sync_on_write"].as_bool().unwrap_or(false), &ops, ex);
         }
         Some("mmapvec_image") => { let im = unhex(c["image"].as_str().unwrap_or("")); cx.coq_seen.clear(); mv_coq_case(cx, c["es"].as_u64().unwrap_or(8) as usize, &im); }
         Some("reorder_image") => { let im = unhex(c["image"].as_str().unwrap_or("")); cx.coq_seen.clear(); reorder_coq_case(cx, &im); }
-        Some("plain") => plain_case(cx, c["ops"].as_array().map(|a| a.as_slice()).unwrap_or(&[]), ex),
-        Some("reorder") | Some("reorder_encode") => {
+        Some("plain") | Some("plain_history") => plain_case(cx, c["ops"].as_array().map(|a| a.as_slice()).unwrap_or(&[]), c["leftover"].as_u64().unwrap_or(0) as usize, ex),
+        Some("reorder") | Some("reorder_encode") | Some("reorder_writes") => {
             let b = if c.get("builds").is_some() { c["builds"].as_array().cloned().unwrap_or_default() } else { vec![json!({"values": c["values"], "neg": c["neg"]})] };
             reorder_case(cx, &b, ex)
         }
         Some("zipoffset") => { let recs: Vec<String> = c["records"].as_array().map(|a| a.iter().map(|x| x.as_str().unwrap_or("").to_string()).collect()).unwrap_or_default(); zipoffset_case(cx, &recs, c["checksum"].as_u64().unwrap_or(0) as u8, ex) }
         Some("dict") => dict_case(cx, &unhex(c["text"].as_str().unwrap_or("")), c["min"].as_u64().unwrap_or(4) as usize, c["max"].as_u64().unwrap_or(256) as usize, ex),
-        Some("mmio") => { let ch: Vec<String> = c["chunks"].as_array().map(|a| a.iter().map(|x| x.as_str().unwrap_or("").to_string()).collect()).unwrap_or_default(); mmio_case(cx, &ch, c["initial"].as_u64().unwrap_or(16) as usize, ex) }
+        Some("mmio") | Some("mmio_ops") => {
+            // (older replays carry "chunks")
+            let ops: Vec<Value> = if let Some(ch) = c["chunks"].as_array() { ch.iter().map(|x| json!(["w", x])).collect() } else { c["ops"].as_array().cloned().unwrap_or_default() };
+            mmio_case(cx, &ops, c["initial"].as_u64().unwrap_or(16) as usize, ex)
+        }
         _ => {}
     }
 }
@@ -1189,10 +1493,11 @@ pub fn run(args: &Args) {
     let srv = Server::start(&root);   // started before any writer runs: a process that never saw the written structures
     tracer_self_test(&root);
     let mut cx = Ctx {
-        sum: Summary::new("C19", "histories of real write operations (MmapVec push/pop/set/truncate/clear/reserve/shrink/resize/extend/bulk/sync/reopen at capacities around 0,1,block and growth factors 1.0..2.0; PlainBlobStore put/remove/reopen with records of 0..9000 bytes; ZReorderMap builds incl. overwriting an older map, runs of 1,2,127..129 and 40-bit values; ZipOffsetBlobStore, SuffixArrayDictionary, MemoryMappedOutput files) with the file operations traced; every crash image (each operation prefix, last write torn at boundary-biased or all byte positions, one unsynced write dropped, one 4 KiB block rolled back) and every truncation of the finished files is reopened and read completely in a separate process; non-trivial = history of >= 3 operations / map of >= 2 values / any write-once file"),
+        sum: Summary::new("C19", "histories of real write operations (MmapVec push/pop/set/truncate/clear/reserve/shrink/resize/extend/bulk/copy_from_simd/sync/reopen at capacities around 0,1,block and growth factors 1.0..2.0, destinations that are not full copied from 1x..10x their capacity; PlainBlobStore put/remove/reopen with records of 0..9000 bytes, also over leftover temporary files; ZReorderMap builds incl. overwriting an older map, runs of 1,2,127..129, 40-bit values, many short runs crossing the 4096-byte write buffer once, twice and several times; ZipOffsetBlobStore with content lengths around the 16-byte padding and more than one offset block, SuffixArrayDictionary, MemoryMappedOutput files with seeks) with the file operations traced; every crash image (each operation prefix, last write torn at boundary-biased or all byte positions, one unsynced write dropped, one 4 KiB block rolled back) and every truncation of the finished files is reopened and read completely in a separate process; non-trivial = history of >= 3 operations / map of >= 2 values / any write-once file"),
         shards: CoqShards::new(HEADER, 150),
         budget: if args.thorough { 6000 } else { 1000 },
         srv, root: root.clone(), seq: 0, thorough: args.thorough, cache: HashMap::new(), images: 0, coq_seen: Default::default(), proto: 0, n_mv: 0, n_ro: 0,
+        n_zo: 0, n_zosave: 0, n_row: 0, n_row_big: 0, n_plain: 0, n_mvops: 0, n_mmio: 0, n_units: 0,
     };
     cx.sum.cell_status("MmapVec<u8>", "M+S"); cx.sum.cell_status("MmapVec<u64>", "M+S"); cx.sum.cell_status("ZReorderMap", "M+S");
     let mut rng = Rng::new(args.seed);
@@ -1223,7 +1528,7 @@ pub fn run(args: &Args) {
         for _ in 0..(1 * scale) {
             // every byte position: keep the records small
             let o: Vec<Value> = gen_plain(&mut rng).into_iter().map(|mut op| { if op[0] == json!(0) { let h = op[1].as_str().unwrap_or("").to_string(); op[1] = json!(h[..h.len().min(120)].to_string()); } op }).collect();
-            plain_case(&mut cx, &o, true);
+            plain_case(&mut cx, &o, 0, true);
         }
         // boundary-biased sampling on many
         for i in 0..(120 * scale) {
@@ -1235,15 +1540,31 @@ pub fn run(args: &Args) {
             if i == 0 { cx.sum.sample(json!({"reorder": b})); }
             reorder_case(&mut cx, &b, false);
         }
+        // many short runs: one, two and several intermediate flushes of the builder's 4096-byte buffer, and record
+        // bytes landing on 4095/4096/4097/8191/8192/8193
+        for (i, t) in [4095usize, 4096, 4097, 4100, 8191, 8192, 8193, 4090 + 4100, 12288].iter().enumerate() {
+            if !args.thorough && i % 3 == (args.seed % 3) as usize && i >= 3 { continue; }
+            let b = gen_reorder_dense(&mut rng, *t, 0); reorder_case(&mut cx, &b, false);
+        }
+        for n in [830usize, 1300, 2000, 5000].iter().take(if args.thorough { 4 } else { 3 }) {
+            let extra = rng.below(40) as usize; let b = gen_reorder_dense(&mut rng, 0, *n + extra); reorder_case(&mut cx, &b, false);
+        }
+        if args.thorough { for _ in 0..10 { let n = rng.range(800, 5200) as usize; let b = gen_reorder_dense(&mut rng, 0, n); reorder_case(&mut cx, &b, false); } }
+        for i in 0..(24 * scale) {
+            let (es, ic, g, sow, ops) = gen_mv_copy(&mut rng, i as usize);
+            run_mv(&mut cx, es, ic, g, sow, &ops, false);
+        }
         for i in 0..(40 * scale) {
             let o = gen_plain(&mut rng);
             if i == 0 { cx.sum.sample(json!({"plain": o})); }
-            plain_case(&mut cx, &o, false);
+            let leftover = if i % 3 == 1 { *rng.pick(&[1usize, 7, 50, 200, 5000]) } else { 0 };
+            plain_case(&mut cx, &o, leftover, false);
         }
-        for _ in 0..(12 * scale) {
-            let n = *rng.pick(&[0usize, 1, 2, 5, 30]);
-            let recs: Vec<String> = (0..n).map(|_| { let l = *rng.pick(&[0usize, 1, 3, 15, 16, 17, 100]); hex(&rng.bytes(l)) }).collect();
-            zipoffset_case(&mut cx, &recs, *rng.pick(&[0u8, 0, 2]), false);
+        for i in 0..(22 * scale) {
+            let (recs, ck) = gen_zip(&mut rng, i as usize);
+            // every byte position on a few small stores
+            let small: usize = recs.iter().map(|r| r.len() / 2).sum();
+            zipoffset_case(&mut cx, &recs, ck, i % 11 == 3 && small <= 200);
         }
         for _ in 0..(6 * scale) {
             let n = *rng.pick(&[16usize, 40, 200, 600]);
@@ -1251,10 +1572,17 @@ pub fn run(args: &Args) {
             let text: Vec<u8> = (0..n).map(|_| b'a' + rng.below(alpha) as u8).collect();
             dict_case(&mut cx, &text, *rng.pick(&[2usize, 4]), *rng.pick(&[8usize, 256]), false);
         }
-        for _ in 0..(10 * scale) {
+        for _ in 0..(14 * scale) {
             let k = rng.range(0, 5);
-            let chunks: Vec<String> = (0..k).map(|_| { let l = *rng.pick(&[0usize, 1, 4, 8, 100, 4096, 5000]); hex(&rng.bytes(l)) }).collect();
-            mmio_case(&mut cx, &chunks, *rng.pick(&[1usize, 16, 4096, 10000]), false);
+            let with_seeks = rng.chance(1, 3);
+            let mut ops: Vec<Value> = vec![];
+            for _ in 0..k {
+                let l = *rng.pick(&[0usize, 1, 4, 8, 100, 4096, 5000]);
+                let l = if with_seeks { l.min(100) } else { l };
+                ops.push(json!(["w", hex(&rng.bytes(l))]));
+                if with_seeks { match rng.below(5) { 0 => ops.push(json!(["s", rng.below(9)])), 1 => ops.push(json!(["x"])), 2 => ops.push(json!(["f"])), 3 => ops.push(json!(["t"])), _ => {} } }
+            }
+            mmio_case(&mut cx, &ops, *rng.pick(&[1usize, 16, 4096, 10000]), false);
         }
     }
     cx.sum.dist_max("images_reopened_in_reader_process", cx.images);
